@@ -396,6 +396,20 @@ def r01_4(ctx):
                  t[:100] if all_clean else "a string literal in this arm is built from %s, not from the text cleaner's result" % [expr_str(v)[:40] for v in vals if not (v.get("k") == "Call" and tc and v.get("callee") == tc["path"])])
     if not found:
         r.ob("a string attribute value is cleaned and rebuilt as a fresh literal", None, C.mloc(fold, fold), "string arm not found")
+    # expression value: handed on as written, in every arm that takes it (a guarded extra arm that builds something else from it changes the prop)
+    k_e = 0
+    for n in walk(fold["body"]):
+        if n.get("k") == "Arm" and any(x.get("adt") == AST + "JSXAttrValue" and x.get("variant") == "JSXExprContainer" for x in walk(n["pat"])) \
+                and any(x.get("adt") == AST + "JSXExpr" and x.get("variant") == "Expr" for x in walk(n["pat"])):
+            k_e += 1
+            ids = {x["id"] for x in walk(n["pat"]) if x.get("k") == "PBind"}
+            b = strip_transparent(n["body"])
+            while b.get("k") == "Block" and not b.get("stmts") and b.get("expr") is not None:
+                b = strip_transparent(b["expr"])
+            asis = (local_of(b) or (None, None))[1] in ids      # the bound expression itself, through clone / deref / Box only
+            r.ob("an expression attribute value is passed on as written" + ("" if k_e == 1 else " #%d" % k_e), asis and n.get("guard") is None, C.mloc(fold, n),
+                 "`%s`" % expr_str(n["body"])[:60] if asis and n.get("guard") is None else
+                 "this arm %sbuilds `%s` from the written expression instead of handing it on" % ("(guarded by `%s`) " % expr_str(n["guard"])[:50] if n.get("guard") is not None else "", expr_str(n["body"])[:70]))
     # namespaced name
     from .symprov import find_format_call, format_parts
     okns = None
